@@ -221,6 +221,8 @@ class Sweep:
                     resp, out = ("e", 0, -1, "exception escaped LangServer.handle: %r" % (e,)), []
                 n_req += 1
                 inp = {"file": rel, "method": method, "line": li, "character": ch, "line_text": lines[li] if li < len(lines) else None}
+                if rel.startswith(("mut_", "gen_", "hostile_", "hist_")):
+                    inp["text"] = "\n".join(lines)[:6000]      # generated documents are not on disk after the run
                 if resp is None:
                     self.report("C09:no-response-" + method.split("/")[-1], "%s got no response" % method, inp, None)
                     continue
